@@ -570,8 +570,12 @@ func (ka *ecdheKeyAgreement) processServerKeyExchange(config *Config, clientHell
 
 	var sigType uint8
 	var sigHash crypto.Hash
+	// wireSigAndHash is the SignatureAndHashAlgorithm as sent by the server
+	// (TLS 1.2 only); it is what the handshake log reports.
+	var wireSigAndHash SigAndHash
 	if ka.version >= VersionTLS12 {
 		signatureAlgorithm := SignatureScheme(sig[0])<<8 | SignatureScheme(sig[1])
+		wireSigAndHash = SigAndHash{Signature: sig[1], Hash: sig[0]}
 		sig = sig[2:]
 		if len(sig) < 2 {
 			return errServerKeyExchange
@@ -609,8 +613,7 @@ func (ka *ecdheKeyAgreement) processServerKeyExchange(config *Config, clientHell
 	case *signedKeyAgreement:
 		auth.raw = sig
 		auth.valid = ka.verifyError == nil
-		auth.sh.Signature = sigType
-		auth.sh.Hash = uint8(sigHash)
+		auth.sh = wireSigAndHash
 	default:
 		break
 	}
